@@ -152,6 +152,12 @@ def stats_oracle(f, counting, n_model, bad, prop="C14", tag="bloom"):
     acc = ref_estimate(m, k, x)
     if est[0] != "ok" or est[1] not in acc:
         bad(prop, f"{tag}.estimate_elements", {"m": m, "k": k, "set": x, "accepted": sorted(acc), "obs": est})
+    if not counting:
+        txt = call(str, f)
+        if txt[0] == "ok" and "number bits set:" in txt[1]:
+            shown = txt[1].split("number bits set:")[1].split()[0]
+            if shown != str(x):
+                bad(prop, f"{tag}.number_bits_set_printed", {"printed": shown, "popcount_of_exported_cells": x, "m": m})
     n = f.elements_added
     if n >= 0:
         cur = call(f.current_false_positive_rate)
